@@ -169,6 +169,34 @@ fn first_big(n: int) -> int {
     }
     0
 }
+fn scan_until(n: int) -> str {
+    let acc = "";
+    let k = 0;
+    for c in "homescript" {
+        if k == n { return acc; }
+        acc = acc + c + ",";
+        k = k + 1;
+    }
+    acc
+}
+fn scan_word(n: int) -> str {
+    let acc = "";
+    let k = 0;
+    for c in WORD {
+        if k >= n { break; }
+        acc = acc + c + ",";
+        k = k + 1;
+    }
+    acc
+}
+fn scan_list(n: int) -> int {
+    let acc = 0;
+    for v in [3, 9, 27, 81] {
+        if v > n { break; }
+        acc = acc * 100 + v;
+    }
+    acc
+}
 let dl = [1, 2];
 fn double_dl() -> int {
     if dl.len() > 40 { dl = [1, 2]; }
@@ -203,6 +231,7 @@ type c16Model struct {
 	aliased  bool // alias_views() has run: vb and va are one list
 	viewA    int  // elements pushed through va
 	spanIncl bool
+	firstResult map[string]string // pure calls judged against their own first result
 	dlLen    int // length of the global list that double_dl() concatenates with itself
 	log     []int64
 	failed  bool
@@ -317,7 +346,28 @@ func c16GenOp(s *simrt.Sim, m *c16Model, pfault int, force int) c16Op {
 			// handled by the caller: print fault / cancel fault on an ordinary op
 		}
 	}
-	switch pick(46, "op") {
+	switch pick(49, "op") {
+	case 46, 47, 48:
+		// what a loop over a literal (or a global string) sees does not depend on how earlier calls left
+		// such a loop: the result of the same call is the same every time (judged against the first
+		// result of this history, not against a constant: what a string yields per step is not C16's business)
+		fn := []string{"scan_until", "scan_word", "scan_list"}[pick(3, "which-scan")]
+		n := []int64{0, 1, 2, 3, 5, 30}[pick(6, "arg")]
+		key := fmt.Sprintf("%s(%d)", fn, n)
+		return c16Op{pure: true, reusable: true, fn: fn, args: []value.Value{vInt(n)}, desc: key, check: func(v value.Value) string {
+			d, err := v.Display()
+			if err != nil {
+				return "result cannot be displayed"
+			}
+			if m.firstResult == nil {
+				m.firstResult = map[string]string{}
+			}
+			if prev, ok := m.firstResult[key]; ok && prev != d {
+				return fmt.Sprintf("returned %q; the same call returned %q earlier in this history", d, prev)
+			}
+			m.firstResult[key] = d
+			return ""
+		}}
 	case 42:
 		n := []int64{0, 3, 5, 10, 12}[pick(5, "arg")]
 		want := n
